@@ -3,6 +3,7 @@ package harness
 import (
 	"bytes"
 	"fmt"
+	"os"
 	"runtime/debug"
 	"sort"
 	"strings"
@@ -253,16 +254,24 @@ func (r *Runner) record(o Obs) {
 	}
 }
 
+// repoPrefix is the path prefix of library source files in stack traces.
+var repoPrefix = func() string {
+	if d := os.Getenv("VERIF_REPO_DIR"); d != "" {
+		return strings.TrimRight(d, "/") + "/"
+	}
+	return "/repo/"
+}()
+
 func trimStack(s []byte) string {
 	lines := strings.Split(string(s), "\n")
 	var keep []string
 	for _, l := range lines {
 		l = strings.TrimSpace(l)
-		if (strings.HasPrefix(l, "/repo/") || strings.Contains(l, "go-txfile@")) && strings.Contains(l, ".go:") {
+		if (strings.HasPrefix(l, repoPrefix) || strings.Contains(l, "go-txfile@")) && strings.Contains(l, ".go:") {
 			if i := strings.Index(l, " +0x"); i > 0 {
 				l = l[:i]
 			}
-			keep = append(keep, strings.TrimPrefix(l, "/repo/"))
+			keep = append(keep, strings.TrimPrefix(l, repoPrefix))
 		}
 		if len(keep) >= 8 {
 			break
@@ -278,7 +287,7 @@ func TrimStack(s []byte) string { return trimStack(s) }
 func panicSite(stack []byte) string {
 	for _, l := range strings.Split(string(stack), "\n") {
 		l = strings.TrimSpace(l)
-		if (strings.HasPrefix(l, "/repo/") || strings.Contains(l, "go-txfile")) && strings.Contains(l, ".go:") {
+		if (strings.HasPrefix(l, repoPrefix) || strings.Contains(l, "go-txfile")) && strings.Contains(l, ".go:") {
 			if i := strings.Index(l, " +0x"); i > 0 {
 				l = l[:i]
 			}
@@ -1141,6 +1150,7 @@ func (t *txRun) op(op *Op) *Violation {
 			}
 			r.count("flush-oom")
 			r.record(Obs{Op: t.opIdx, Kind: "flush", OK: false, Err: ErrKindName(err)})
+			r.drain() // the pages flushed before the error are queued
 			return nil
 		}
 		for _, lp := range t.local {
